@@ -81,7 +81,12 @@ def fuel_chain(pm, info, q, Tsurf):
     T = float(Tsurf)
     shells = []
     for i in reversed(range(len(rf))):
+        # conduction through a shell of a pellet that generates heat uniformly outside its central hole r0 = rf[0] R (zero for a
+        # solid pellet): the heat crossing radius r is qdens pi (r^2 - r0^2), so
+        #   k dT = qdens [ (ro^2 - ri^2) / 4 - r0^2 ln(ro / ri) / 2 ]
         d = 0.25 * R * R * (bounds[i + 1] ** 2 - bounds[i] ** 2)
+        if rf[0] > 0.0:
+            d -= 0.5 * (rf[0] * R) ** 2 * math.log(bounds[i + 1] / bounds[i])
         kout = cond(mats[i], T)
         Tin = T + d * qd / kout
         for _ in range(500):
@@ -205,6 +210,7 @@ def run(ctx):
                 "or >0 (radiating), temperature-dependent clad; powers zero .. extreme (iteration-limit exit); non-trivial = "
                 "one (pin model, power level) evaluation")
     ctx.prove("Dassh.Props.C13")
+    ctx.prove("Dassh.Props.C13Annular")
     del MODEL_REQ[:]
     oracle(ctx, rng, 600 if ctx.thorough else 150)
     # correspondence: the Lean model (chain of closed-form conduction steps) on the same data vs the real PinModel
